@@ -15,6 +15,7 @@ import os
 import vlib
 import gen_c20
 import c20_import as H
+import c20_tie
 
 FINISH = dict(level="proof",
               rule="one case = one generated benchmark file (1-6 instruction forms, ibench or asmbench, x86/zen1 or "
@@ -289,6 +290,9 @@ Eval vm_compute in show.
             ctx.obligation("correspondence shard %d: Model/Import.v (detected variant) = real import on %s files, bit for bit" % (si, cnt),
                            "correspondence", bad == "" and int(cnt) == n, detail)
         ctx.log("file correspondence: %d files in %d shards" % (len(cases), len(shards)))
+    # ---- T for the glue (parsers, insertion, dump): regenerated from the current source, proved equal to Model/Import.v
+    #      (PropsGen/C20glue.v) and evaluated against the real outputs of the files above (notes/C20-glue.md)
+    c20_tie.run(ctx, cases, existing)
 
 
 def replay(ctx, obj):
